@@ -139,6 +139,61 @@ def model_items(scenarios):
 
 
 def make_hit(chk, seed, tier, sub=None):
+    hits = collections.Counter()
+
+    def hit(name, sc, what):
+        hits[name] += 1
+        if hits[name] <= 3:
+            chk.monitor_hit("", "%s_%d.json" % (name, hits[name]),
+                            dict(what=what, seed=seed, tier=tier, scenario=sc,
+                                 replay="build/bin/dkg %s -seed %d -tier %s   (scenario id %s)"
+                                        % (sub or ("backend" if sc.get("kind") == "bdkg" else "stack"), seed, tier, sc.get("id"))), what)
+        else:
+            chk.cov["monitor_hits"] += 1
+    return hit
+
+
+def run_ps_dkg_schedules(chk, tier, seed):
+    """C08, clause "all parties report identical public material after DKG": the real TPS key generators (backend level)
+    under delivery schedules WITHOUT per-link FIFO -- directed cases (a party's de-commitment overtakes its commitment at a
+    peer; a share arrives after all commitments) and random ones, everybody honest and with a deviating participant.
+    Monitors (all complete / identical material / no panic / no early reveal) plus the replay of every honest party on the
+    Coq model.  Same contract as run_backend_cancel: adds monitor hits and coverage, never calls finish; returns the scenarios."""
+    ok, blog = vlib.go_build("dkg", "dkg")
+    if not ok:
+        chk.violation("go_build_dkg.txt", "harness/dkg does not build against /repo:\n" + blog[-4000:], no_input=True)
+        return []
+    path = os.path.join(chk.rundir(), "ps_schedules.jsonl")
+    rc, out = vlib.run_harness("dkg", ["schedules", "-pkg", "ps", "-seed", str(seed), "-tier", tier], path, timeout=1800)
+    if rc != 0:
+        chk.violation("harness_schedules.txt", "schedule harness failed (exit %d):\n%s" % (rc, out[-4000:]), no_input=True)
+        return []
+    scs = vlib.read_jsonl(path)
+    before = len(chk.violations)
+    backend_monitors(chk, make_hit(chk, seed, tier, "schedules -pkg ps"), scs)
+    items = model_items(scs)
+    mism = evaluate(chk, chk.pid + "ps", items)
+    if mism is not None:
+        chk.cov["mismatches"] = chk.cov.get("mismatches", 0) + len(mism)
+        if mism and len(chk.violations) == before:
+            sc, p = mism[0]
+            chk.violation("corr_ps_dkg.json",
+                          dict(what="correspondence TSS.Corr.DKGCorr.check fails: TPS.KeyGen of this party and the DKG model differ in "
+                                    "verdict, values or broadcast order", count=len(mism), party=p["id"], scenario=sc), no_input=True)
+    chk.cov["ps_dkg_schedules"] = dict(collections.Counter(
+        "%s/%s/%s" % (sc["deviation"], sc.get("schedule", "random").split(" ")[0],
+                      ",".join(sorted(set(p["verdict"] for p in sc["parties"] if p["honest"])))) for sc in scs))
+    chk.cov["evaluations"] = chk.cov.get("evaluations", 0) + len(scs) + len(items)
+    return scs
+
+
+def run(pid, tier, seed):
+    chk = vlib.Check(pid, tier, seed)
+    vlib.proof_stage(chk)
+    ok, blog = vlib.go_build("dkg", "dkg")
+    if not ok:
+        chk.violation("go_build.txt", "harness does not build against /repo:\n" + blog[-4000:], no_input=True)
+        return chk.finish()
     hit = make_hit(chk, seed, tier)
 
     # ---------------------------------------------------------------- backend level
